@@ -700,10 +700,10 @@ class EventManager(MpfController):
 
             # call the handler and save the results
 
-            try:
-                queue = merged_kwargs.pop('queue')
-            except KeyError:
-                queue = QueuedEvent(self.debug_log)
+            # every handler gets its own QueuedEvent. a queue passed in the kwargs belongs to the handler of
+            # an outer queue event which forwarded its kwargs; sharing it would overwrite its wait event.
+            merged_kwargs.pop('queue', None)
+            queue = QueuedEvent(self.debug_log)
 
             handler.callback(queue=queue, **merged_kwargs)
 
